@@ -136,11 +136,31 @@ def init_vars_task(cls_name, mode, given_keys, ic_none):
                         c.oblige("post", f"{g}[{key!r}] = the supplied value, clamped at zero iff {flag}",
                                  T.eq(v.at(i), T.ite(fl, M.clamp0(gv.at(i)), gv.at(i))), assume_after=False)
                 else:
-                    isvar = isinstance(v, Arr) and (v.buf.is_var or flag is not None)
-                    c.oblige("post", f"{g}[{key!r}] is a fresh engine variable", T.const(isinstance(v, Arr) and v.buf.owner == "fresh" and isvar), assume_after=False)
-                    if isinstance(v, Arr):
-                        n_exp = obj.attrs["N"] if kind == "vecN" else (obj.attrs["vsl"].n if kind == "vecK" else A.ONE)
-                        c.oblige("shape", f"{g}[{key!r}] has the declared length", T.eq(A.length(v) if not v.is_scalar else A.ONE, n_exp), assume_after=False)
+                    # not supplied: exactly one engine variable named after the key, of the declared length,
+                    # stored as it is - or clamped at zero iff the matching flag
+                    def named_after(ev):
+                        nm = ev["name"]
+                        parts = nm.parts if hasattr(nm, "parts") else (nm,)
+                        lead = ""
+                        for p_ in parts:
+                            if not isinstance(p_, str):
+                                break
+                            lead += p_
+                        return lead == key + "_"
+
+                    evs = [ev for ev in c.events if ev["what"] == "var" and named_after(ev)]
+                    n_exp = obj.attrs["N"] if kind == "vecN" else (obj.attrs["vsl"].n if kind == "vecK" else A.ONE)
+                    c.oblige("post", f"{g}[{key!r}]: exactly one engine variable '{key}_<element name>' is created", T.const(len(evs) == 1 and isinstance(v, Arr) and v.buf.owner == "fresh"), assume_after=False)
+                    if len(evs) == 1 and isinstance(v, Arr):
+                        var = evs[0]["arr"]
+                        c.oblige("shape", f"{g}[{key!r}]: the variable has the declared length", T.eq(evs[0]["n"], n_exp), assume_after=False)
+                        fl = flags[flag] if flag else T.FALSE
+                        if var.is_scalar or v.is_scalar:
+                            c.oblige("post", f"{g}[{key!r}] = that variable, clamped at zero iff {flag}", T.eq(v.at(0), T.ite(fl, M.clamp0(var.at(0)), var.at(0))), assume_after=False)
+                        else:
+                            c.oblige("shape", f"{g}[{key!r}] has the variable's length", T.eq(v.n, var.n))
+                            i = c.fresh_index(var.n, "k")
+                            c.oblige("post", f"{g}[{key!r}] = that variable, clamped at zero iff {flag}", T.eq(v.at(i), T.ite(fl, M.clamp0(var.at(i)), var.at(i))), assume_after=False)
         # ---- frame: only the element's own variable dicts are written; supplied dict/arrays untouched
         for eff in c.effects:
             if eff[0] == "attr-write":
